@@ -229,6 +229,9 @@ func (c *Ctx) calleeName(call *ast.CallExpr) string {
 		}
 		return ""
 	}
+	if b, ok := o.(*types.Builtin); ok {
+		return "builtin." + b.Name()
+	}
 	return objName(o)
 }
 
